@@ -5,7 +5,7 @@ import random
 from harness import common as C
 from harness import l2
 
-FILES = ["Engine/Toposort.v", "Engine/ToposortProof.v", "Engine/Tagged.v", "Engine/Tower.v", "Engine/Run08.v", "Engine/TowerProof.v", "Engine/TaggedProof.v", "Engine/TowerAlg.v", "Engine/FwdCorrect.v", "Engine/FwdStep.v", "Engine/FwdEval.v", "Engine/TowerRing.v", "Engine/MixInterp.v", "Engine/MixStep.v", "Engine/MixBackward.v", "Engine/MixEval.v", "Props/C07.v"]
+FILES = ["Engine/Toposort.v", "Engine/ToposortProof.v", "Engine/Tagged.v", "Engine/Tower.v", "Engine/Run08.v", "Engine/TowerProof.v", "Engine/TaggedProof.v", "Engine/TowerAlg.v", "Engine/FwdCorrect.v", "Engine/FwdStep.v", "Engine/FwdEval.v", "Engine/TowerRing.v", "Engine/MixInterp.v", "Engine/MixStep.v", "Engine/MixBackward.v", "Engine/MixEval.v", "Array/Bilinear.v", "Array/BilinearClosed.v", "Array/RunBil.v", "Props/C07.v"]
 RULE = ("for random operator-free bodies, every one of the 2^k sequences of reverse/forward operators of order "
         "k=2..4 with respect to one variable, plus random nested programs of differentiation depth >= 2; distinct "
         "by program text; non-trivial when order >= 2 and the k-th derivative is not identically zero.  Built-in "
@@ -48,6 +48,13 @@ def run(res, tier, seed, broken):
         for k, v in out["dist"].items():
             res.count("np2:" + k, v)
         bad = bad + out["bad"]
+
+    # bilinear primitives: the rules of the reverse rules (second order) against the model (BilinearClosed.v)
+    from harness import rules
+    b4, t4, e4 = rules.run_bilinear(res, "c07_bil", seed)
+    if e4:
+        broken = broken + [{"obligation": "bilinear second-order correspondence failed to run", "log": e4[-3000:]}]
+    bad, tie = bad + b4, tie + t4
 
     def hunt():
         for k in range(6 if big else 2):
